@@ -57,12 +57,9 @@ pub fn current() -> u8 {
 }
 
 pub fn pick_level(r: &mut Rng) -> u8 {
-    let m = max_level() as u64;
-    if m == 0 {
-        0
-    } else {
-        r.range(0, m) as u8
-    }
+    // always one draw, whatever the build, so that every host build generates the same run from one seed;
+    // a level above what this machine/build can execute is clamped when the run executes (set_current)
+    (r.next() % 6) as u8
 }
 
 pub fn dispatch_counts() -> Vec<(String, u64)> {
